@@ -65,6 +65,18 @@ Cases ==
             v \in Scalars, b1 \in BaseNames \ {S(<<98, 97, 115, 101, 49, 54>>)}}
   \cup {Case("garbage", CallN("decode", 2), <<g, b>>, NoC) : g \in {S(<<122, 122>>), S(<<>>), NumV(1), Null}, b \in BaseNames}
   \cup {Case("hash", CallN("hash", 2), <<v, a>>, NoC) : v \in Scalars \cup {Arr(<<NumV(1)>>)}, a \in Algs}
+  \* two values of different kinds that print alike, hashed / encoded one after the other in one statement: each gets its own answer
+  \cup {Case("pair", [k |-> "fn", f |-> "array", args |-> <<[k |-> "fn", f |-> g, args |-> <<ColN(1), ColN(3)>>], [k |-> "fn", f |-> g, args |-> <<ColN(2), ColN(3)>>]>>],
+              <<p[1], p[2], a>>, NoC) :
+            g \in {"hash", "encode"},
+            p \in {<<S(<<49>>), NumV(1)>>, <<NumV(1), S(<<49>>)>>, <<BoolV(TRUE), S(<<116, 114, 117, 101>>)>>, <<S(<<116, 114, 117, 101>>), BoolV(TRUE)>>,
+                   <<NumV(3), S(<<51>>)>>, <<S(<<45, 49>>), NumV(-1)>>},
+            a \in {S(<<109, 100, 53>>), S(<<115, 104, 97, 49>>), S(<<104, 101, 120>>), S(<<98, 97, 115, 101, 54, 52>>)}}
+  \* one array heading two UNWIND arguments in one select list: each result has its own tail
+  \cup {Case("unwind2", [k |-> "fn", f |-> "array", args |-> <<Nest("unwind", [k |-> "fn", f |-> "array", args |-> <<ColN(1), ColN(2)>>], <<>>),
+                                                                Nest("unwind", [k |-> "fn", f |-> "array", args |-> <<ColN(1), ColN(3)>>], <<>>)>>],
+              <<h, Arr(<<NumV(7)>>), Arr(<<NumV(9), NumV(8)>>)>>, NoC) :
+            h \in {Arr(<<NumV(1), NumV(2), NumV(3)>>), Arr(<<NumV(1)>>), Arr(<<NumV(1), NumV(2), NumV(3), NumV(4), NumV(5)>>), Arr(<<>>)}}
   \cup UNION {{Case("arity", CallN(f, n), [i \in 1..n |-> NumV(1)], NoC) : n \in (0..3) \ {Arity(f)}} : f \in Fixed}
 
 RECURSIVE EvF(_, _, _)
